@@ -2,5 +2,6 @@ SPECIFICATION Spec
 CONSTANTS ScanRows = {1, 2, 9, 23, 46, 120, 300, 477}
   ScanChunks = 200
   ScanChunkSize = 5000
+  DeepRows = {2, 9, 40, 477}  DeepChunks = 3200
 INVARIANTS ParamsConsistent TablesWellFormed TuplesInRange WrapSolved EdgeInRange Emit
 CHECK_DEADLOCK FALSE
